@@ -284,16 +284,15 @@ func refSeqAt(ops []SeqOp, obs []string) (bad bool, detail string, at int) {
 	return false, "", -1
 }
 
-// classify: negations of the hypotheses of the partial theorems in Props/C14.lean, as
-// predicates on the history.
+// classify: negation of the hypothesis of the partial theorem in Props/C14.lean, as a
+// predicate on the history.
 //
-//	F-C14-latest-substr ¬HistoryTagsExact: some non-deleted npm addition has a tag string that
-//	                     contains "latest" other than as a whole tag (C12: F-C12-latest-substr).
 //	F-C14-mvn-intrans   ¬HistoryLawful: the ecosystem order is not a total order on the versions
 //	                     added for some Maven package (C12: F-C12-mvn-intrans).
 //
 // Only the order/selection of a listing can be affected: the failing call must be a Versions
-// or MatchingVersions call on a package of that system.
+// or MatchingVersions call on a Maven package. (F-C14-latest-substr is fixed: nothing is
+// tolerated on npm packages; tags that merely contain "latest" are regression inputs.)
 func classify(oracle string, ops, res []string) string {
 	f := strings.Fields(ops[0])
 	rf := strings.Fields(res[0])
@@ -305,26 +304,21 @@ func classify(oracle string, ops, res []string) string {
 	if !bad || at < 0 || (seq[at].Kind != "vers" && seq[at].Kind != "match") {
 		return ""
 	}
-	switch seq[at].Sys {
-	case resolve.NPM:
-		if !historyTagsExact(seq) {
-			return "F-C14-latest-substr"
-		}
-	case resolve.Maven:
-		if !historyLawful(seq) {
-			return "F-C14-mvn-intrans"
-		}
+	if seq[at].Sys == resolve.Maven && !historyLawful(seq) {
+		return "F-C14-mvn-intrans"
 	}
 	return ""
 }
 
-func historyTagsExact(seq []SeqOp) bool {
+// historyLookalike: some non-deleted npm addition has a tag string that contains "latest"
+// other than as a whole tag (distribution only; see resolveops.LatestLookalike).
+func historyLookalike(seq []SeqOp) bool {
 	for _, o := range seq {
-		if o.Kind == "add" && o.Sys == resolve.NPM && !o.V.Deleted && !resolveops.TagsExact([]V{o.V}) {
-			return false
+		if o.Kind == "add" && o.Sys == resolve.NPM && !o.V.Deleted && resolveops.LatestLookalike([]V{o.V}) {
+			return true
 		}
 	}
-	return true
+	return false
 }
 
 func historyLawful(seq []SeqOp) bool {
@@ -380,7 +374,7 @@ var reqPool = map[resolve.System][]string{
 
 type genOpts struct {
 	ext  bool // outside the property's quantifier: correspondence only
-	find bool // include inputs of the two known finding classes
+	find bool // include inputs of the known finding class (Maven's intransitive shapes)
 }
 
 func genAttrs(r *rand.Rand, v *V, o genOpts) {
@@ -388,9 +382,10 @@ func genAttrs(r *rand.Rand, v *V, o genOpts) {
 	case k < 3:
 		v.HasTags, v.Tags = true, "latest"
 	case k < 5:
-		v.HasTags, v.Tags = true, semverops.Pick(r, "next", "beta,next", "", "latest,next", "next,latest")
-	case k == 5 && (o.ext || o.find):
-		v.HasTags, v.Tags = true, semverops.Pick(r, "notlatest", "latest-2", "prelatest,next")
+		v.HasTags, v.Tags = true, semverops.Pick(r, "next", "beta,next", "", "latest,next", "next,latest", ",latest", "beta,latest,next")
+	case k == 5:
+		// not the tag latest (regression inputs of the fixed finding F-C14-latest-substr)
+		v.HasTags, v.Tags = true, semverops.Pick(r, "notlatest", "latest-2", "prelatest,next", "latestx", "next,latestx", "Latest")
 	}
 	v.Blocked = r.Intn(4) == 0
 	v.Error = r.Intn(12) == 0
@@ -546,8 +541,8 @@ func stats(c *fw.Ctx, ops []SeqOp, res string) {
 	if repl > 0 {
 		c.Count("seq:with-replacement")
 	}
-	if !historyTagsExact(ops) {
-		c.Count("seq:latest-substring")
+	if historyLookalike(ops) {
+		c.Count("seq:latest-lookalike")
 	}
 	if !historyLawful(ops) {
 		c.Count("seq:maven-unlawful")
@@ -626,9 +621,8 @@ func run(c *fw.Ctx) {
 		}
 	}
 
-	// 3. correspondence only: inputs in C12's finding classes (substring look-alikes of
-	// "latest", Maven's intransitive shapes), Requirement-typed additions, requirements of
-	// mixed systems
+	// 3. correspondence only: inputs in C12's finding class (Maven's intransitive shapes),
+	// Requirement-typed additions, requirements of mixed systems
 	for it := 0; it < c.N(3000, 40000); it++ {
 		ops := genSeq(r, 40, genOpts{ext: true})
 		c.Opf("C14 seq %s", resolveops.EncSeq(ops))
@@ -641,7 +635,7 @@ func exec(f []string) string { return resolveops.ExecC14(f) }
 func main() {
 	fw.Main(&fw.Prop{
 		ID: "C14",
-		Rule: "one op line = one history of ≤ 60 calls on a fresh LocalClient: AddVersion (new keys; repeated keys with changed attributes/requirements; deleted-flagged; NPM/Maven/PyPI, 30% of histories mix systems; collision-rich version pools with equal-comparing spellings and unparsable strings; tags latest/next/…, deprecated, error; 0..8 requirements with dev/opt/KnownAs and case-variant names) interleaved with Version/Versions/Requirements/MatchingVersions on added, mentioned and never-added keys; half of the histories end with a probe of every key and package touched. Oracle ref = a map-based reference in the harness (independent of util/resolve's client and matching code; ordering and matching through util/semver) compared observation by observation. Plus every history of ≤ 4 additions over a five-letter alphabet followed by all queries, one history in eight also draws from the two known finding classes (tag strings containing 'latest' other than as a tag; Maven's intransitive shapes), and a correspondence-only stream outside the quantifier (Requirement-typed additions, requirements of mixed systems). Distinct non-trivial = distinct histories that replace an existing key.",
+		Rule: "one op line = one history of ≤ 60 calls on a fresh LocalClient: AddVersion (new keys; repeated keys with changed attributes/requirements; deleted-flagged; NPM/Maven/PyPI, 30% of histories mix systems; collision-rich version pools with equal-comparing spellings and unparsable strings; tags latest (alone or inside a comma-separated list)/next/…, look-alikes that are not the tag latest (notlatest, latest-2, latestx: regression inputs of the fixed finding F-C14-latest-substr, nothing tolerated), deprecated, error; 0..8 requirements with dev/opt/KnownAs and case-variant names) interleaved with Version/Versions/Requirements/MatchingVersions on added, mentioned and never-added keys; half of the histories end with a probe of every key and package touched. Oracle ref = a map-based reference in the harness (independent of util/resolve's client and matching code; ordering and matching through util/semver) compared observation by observation. Plus every history of ≤ 4 additions over a five-letter alphabet followed by all queries, one history in eight also draws from the known finding class (Maven's intransitive shapes), and a correspondence-only stream outside the quantifier (Requirement-typed additions, requirements of mixed systems). Distinct non-trivial = distinct histories that replace an existing key.",
 		Exec: exec, Run: run, Recheck: recheck, Classify: classify,
 		Gens: semvergen.Generators(),
 	})
